@@ -1,6 +1,7 @@
 package mon
 
 import (
+	"reflect"
 	"context"
 	"crypto/ecdsa"
 	"crypto/elliptic"
@@ -257,7 +258,7 @@ type c13Shutdown struct {
 func (e *c13Env) shutdown(tag string, ctx context.Context) *c13Shutdown {
 	s := &c13Shutdown{done: make(chan error, 1)}
 	e.ctl.Note("shutdown.call", tag)
-	ln := e.ln // the listener of the run that is being shut down
+	ln, pc := e.ln, e.pc // the listener / socket of the run that is being shut down
 	go func() {
 		var err error
 		if ctx != nil {
@@ -266,10 +267,10 @@ func (e *c13Env) shutdown(tag string, ctx context.Context) *c13Shutdown {
 			err = e.srv.Shutdown()
 		}
 		e.ctl.Note("shutdown.return", tag+" "+fmt.Sprint(err))
-		if err == nil && e.pc != nil && e.pc.ClosesDone() == 0 {
+		if err == nil && pc != nil && pc.ClosesDone() == 0 {
 			// "once shutdown completes no connection of the server remains": the datagram socket has been
 			// released by the time a graceful Shutdown returns, not some time later
-			e.viol("packetconn-open-when-shutdown-returns", fmt.Sprintf("Shutdown returned nil while no Close of the PacketConn had completed (Close calls begun: %d)", e.pc.Closes()))
+			e.viol("packetconn-open-when-shutdown-returns", fmt.Sprintf("Shutdown returned nil while no Close of the PacketConn had completed (Close calls begun: %d)", pc.Closes()))
 		}
 		if err == nil && ln != nil && e.scenario != "hijack" {
 			// ... and so have the connections it accepted: closed, not about to be
@@ -1421,6 +1422,112 @@ func c13StreamReadCompletesAsShutdownBegins(w *core.W, bodyThere bool, seed uint
 	e.finish(nil, false)
 }
 
+// scenario: Shutdown is held right after it has released the lock (hook shutdown.unlocked); with nothing
+// in flight the serve loop finishes and the serve call returns; the same Server is started again at
+// once; then Shutdown goes on. It was the first run it shut down: it returns, and the second run is
+// none of its business (it answers, and a Shutdown of its own ends it).
+func c13RestartWhileShutdownReturns(w *core.W, kind string, seed uint64) {
+	e := newC13Env(w, kind, "restart-while-shutdown-is-returning", seed)
+	if !e.start() {
+		return
+	}
+	sg := e.ctl.Gate("shutdown.unlocked", false)
+	sd := e.shutdown("s1", nil)
+	if !sg.WaitArrived(c13Watch) {
+		w.Inconclusive("c13-hook-not-reached:shutdown.unlocked")
+		e.ctl.ReleaseAll()
+		e.finish(nil, false)
+		return
+	}
+	// the first serve call returns while Shutdown is still on its way out
+	select {
+	case serr := <-e.serveErr:
+		if serr != nil {
+			e.viol("restart-while-shutdown-returns/first-serve-error", fmt.Sprintf("first serve call returned %v", serr))
+		}
+	case <-time.After(c13Watch):
+		e.viol("restart-while-shutdown-returns/first-serve-does-not-return", "with nothing in flight the serve call did not return after Shutdown had stopped the server")
+		sg.Release()
+		sched.Use(nil)
+		return
+	}
+	oldLn, oldPc := e.ln, e.pc
+	started2 := make(chan struct{})
+	var once sync.Once
+	e.srv.NotifyStartedFunc = func() { once.Do(func() { close(started2) }) }
+	switch kind {
+	case "tcp-sim":
+		e.ln = netsim.NewListener()
+		e.srv.Listener = e.ln
+	case "pc-sim":
+		e.pc = netsim.NewPacketConn()
+		e.srv.PacketConn = e.pc
+	}
+	serve2 := make(chan error, 1)
+	e.ctl.Note("start.call", "second")
+	go func() { serve2 <- e.srv.ActivateAndServe() }()
+	second := "started"
+	select {
+	case <-started2:
+	case err := <-serve2:
+		second = fmt.Sprintf("returned %v", err)
+		serve2 <- err
+	case <-time.After(c13Watch):
+		second = "blocked"
+		e.viol("restart-while-shutdown-returns/second-start-blocks", "a start after the serve call had returned neither started nor returned an error")
+	}
+	e.ctl.Note("second.start", second)
+	w.Count("restarts_while_shutdown_is_returning", 1)
+	sg.Release()
+	if err, ok := sd.wait(c13Watch); !ok {
+		e.viol("restart-while-shutdown-returns/first-shutdown-does-not-return", fmt.Sprintf("the Shutdown of the first run never returned once the server had been started again (second start: %s)", second))
+	} else if err != nil {
+		e.viol("restart-while-shutdown-returns/first-shutdown-error", fmt.Sprintf("Shutdown returned %v", err))
+	}
+	if second == "started" {
+		r2 := e.send(62)
+		select {
+		case okr := <-r2.reply:
+			if !okr {
+				e.viol("restart-while-shutdown-returns/second-server-does-not-answer", "the restarted server does not answer")
+			}
+		case <-time.After(c13Watch):
+			e.viol("restart-while-shutdown-returns/second-server-does-not-answer", "the restarted server does not answer")
+		}
+		r2.close()
+		done := make(chan error, 1)
+		go func() { done <- e.srv.Shutdown() }()
+		select {
+		case err := <-done:
+			if err != nil {
+				e.viol("restart-while-shutdown-returns/second-shutdown-error", fmt.Sprintf("%v", err))
+			}
+		case <-time.After(c13Watch):
+			e.viol("restart-while-shutdown-returns/second-shutdown-does-not-return", "Shutdown of the restarted server does not return")
+		}
+		select {
+		case <-serve2:
+		case <-time.After(c13Watch):
+			e.viol("restart-while-shutdown-returns/second-serve-does-not-return", "the second serve call did not return")
+		}
+	}
+	for _, c := range []interface{ Close() error }{oldLn, oldPc, e.ln, e.pc} {
+		if c != nil && !reflect.ValueOf(c).IsNil() {
+			c.Close()
+		}
+	}
+	deadline := time.Now().Add(3 * time.Second)
+	for serverGoroutines() > 0 && time.Now().Before(deadline) {
+		time.Sleep(5 * time.Millisecond)
+	}
+	if n := serverGoroutines(); n > 0 {
+		e.viol("restart-while-shutdown-returns/goroutine-leak", fmt.Sprintf("%d server goroutine(s) remain", n))
+	}
+	e.w.Count("scenarios", 1)
+	e.w.NontrivialStr(kind, "restart-while-shutdown-returns", second)
+	sched.Use(nil)
+}
+
 // scenario: the listener fails for good (Accept returns a non-temporary error) while connections are
 // open - one idle after an answered request, optionally one with a handler still running. The serve
 // loop is over, but the server has been started and not shut down: Shutdown still has to release the
@@ -1605,6 +1712,7 @@ func c13Cases() []c13Case {
 			cs = append(cs, c13Case{kind + " restart before the serve loop", func(w *core.W, s uint64) { c13RestartWhile(w, kind, true, s) }})
 			cs = append(cs, c13Case{kind + " restart during drain through ListenAndServe", func(w *core.W, s uint64) { c13RestartDuringDrainListen(w, kind, s) }})
 			cs = append(cs, c13Case{kind + " restart after an expired shutdown context", func(w *core.W, s uint64) { c13RestartAfterExpiredShutdown(w, kind, s) }})
+			cs = append(cs, c13Case{kind + " restart while shutdown is returning", func(w *core.W, s uint64) { c13RestartWhileShutdownReturns(w, kind, s) }})
 		}
 		if kind == "tcp-sim" || kind == "pc-sim" {
 			cs = append(cs, c13Case{kind + " pause", func(w *core.W, s uint64) { c13PauseScenario(w, kind, s) }})
